@@ -44,7 +44,8 @@ type ctlSym struct {
 
 func newCtlSym() *ctlSym {
 	r := hx.Rand(14)
-	pools := [][2]string{{"cookie-1", "cookie-2"}, {"\x00\x01\xfe\xff", "\x00\x01\xfe"}, {string(make([]byte, 200)), "x"}}
+	// k2 is always a complete BER element (what most standard control values are), k1 text / binary / long
+	pools := [][2]string{{"cookie-1", "\x04\x02hi"}, {"\x00\x01\xfe\xff", "\x30\x03\x02\x01\x05"}, {string(make([]byte, 200)), "\x0a\x01\x01"}}
 	p := pools[r.Intn(len(pools))]
 	s := &ctlSym{str: map[string]string{"": "", "k1": p[0], "k2": p[1], "o1": "1.2.3.4.5.6.7", "o2": "2.16.840.1.113730.3.4.999"}, rstr: map[string]string{}}
 	for k, v := range s.str {
